@@ -115,3 +115,30 @@ func shortPkg(path string) string {
 	s = strings.TrimPrefix(s, "x/")
 	return s
 }
+
+// importPath resolves an import alias / package name as used in the source files of package pkgPath.
+func (p *Program) importPath(pkgPath, name string) (string, bool) {
+	var res string
+	found := false
+	packages.Visit(p.Pkgs, nil, func(pk *packages.Package) {
+		if pk.PkgPath != pkgPath || found {
+			return
+		}
+		for _, f := range pk.Syntax {
+			for _, im := range f.Imports {
+				path := strings.Trim(im.Path.Value, "\"")
+				alias := ""
+				if im.Name != nil {
+					alias = im.Name.Name
+				} else if ip, ok := pk.Imports[path]; ok {
+					alias = ip.Name
+				}
+				if alias == name {
+					res, found = path, true
+					return
+				}
+			}
+		}
+	})
+	return res, found
+}
